@@ -499,10 +499,38 @@ def F_ctorPriority (inp : Input) : Bool :=
     | some rd => (a.strat == .assign || a.strat == .conv) && (firstFn (indexed inp.fns) rd.ty a.p.ty).isSome
     | none => false)
 
+/-- F_skipTagNew: `map:"-"` on a field of an accessor-mode type is ignored — its getter, setter and
+    constructor parameter come from the generated interfaces / the constructor, not from the field list -/
+def F_skipTagNew (inp : Input) : Bool :=
+  (inp.srcNew && (leavesOf inp.src).any (fun l => l.decl.tag == .skip)) ||
+  (inp.destNew && (leavesOf inp.dest).any (fun l => l.decl.tag == .skip))
+
+/-- the only way to write the leaf is its constructor parameter -/
+def ctorOnly (l : Leaf) : Bool := !isExported l.decl.name && !l.decl.hasSet
+
+/-- F_ctorNoSub: a constructor-only (get-only) field whose value needs a recursive ToX/FromX call stays
+    zero: makeCtorMatch knows assignment, conversion and mapper methods only -/
+def F_ctorNoSub (inp : Input) : Bool :=
+  (toGen inp && inp.destNew && (leavesOf inp.dest).any (fun l => ctorOnly l && match candsTo inp l with
+    | [c] => isSubStrat c.2
+    | _ => false)) ||
+  (fromGen inp && inp.srcNew && (leavesOf inp.src).any (fun l => ctorOnly l && match candsFrom inp l with
+    | [c] => isSubStrat c.2
+    | _ => false))
+
+/-- F_ctorTag: the source constructor's parameters are matched WITHOUT the tag map
+    (`makeCtorMatch(…, nil, …)`), so a tagged constructor-only field of the source type is never written by FromX -/
+def F_ctorTag (inp : Input) : Bool :=
+  fromGen inp && inp.srcNew && (leavesOf inp.src).any (fun l => ctorOnly l &&
+    (match l.decl.tag with | .name _ => true | _ => false) && (candsFrom inp l).length == 1)
+
 def region15 (inp : Input) : String :=
   if !grammarOk inp || !(inp.srcNew || inp.destNew) || !namesOk inp then "Out"
   else if F_setOnlyRead inp then "F_setOnlyRead"
   else if !modelCompiles inp then "Out"
+  else if F_skipTagNew inp then "F_skipTagNew"
+  else if F_ctorNoSub inp then "F_ctorNoSub"
+  else if F_ctorTag inp then "F_ctorTag"
   else if F_ctorPriority inp then "F_ctorPriority"
   else if F_multiMatch inp then "Out"
   else "WF"
